@@ -166,6 +166,7 @@ def grammar_models(s, L, N, K):
     sents = g["collected"]["sentences.ndjson"]
     s.model("ChordLangMC", workers=8, files=[(sents, "sentences.ndjson")], constants={"N": N, "L": L})
     s.model("LexerMC", workers=8, constants={"K": K})
+    s.model("LexerMC", cfg="LexerDev.cfg", workers=2, expect_violation="temporal")     # the pinned tree's hang, at design level
     return sents
 
 
